@@ -733,8 +733,16 @@ class HostConnectionPool(object):
                 conn.set_keyspace_blocking(self._session.keyspace)
             self._next_trash_allowed_at = time.time() + _MIN_TRASH_INTERVAL
             with self._lock:
-                new_connections = self._connections[:] + [conn]
-                self._connections = new_connections
+                is_shutdown = self.is_shutdown
+                if is_shutdown:
+                    self.open_count -= 1
+                else:
+                    new_connections = self._connections[:] + [conn]
+                    self._connections = new_connections
+            if is_shutdown:
+                # the pool was shut down while the connection was being opened: shutdown() did not see it
+                conn.close()
+                return True
             log.debug("Added new connection (%s) to pool for host %s, signaling availability",
                       id(conn), self.host)
             self._signal_available_conn()
